@@ -128,6 +128,12 @@ class C16(Prop):
                 f = gen_overlapping(rng, files[-1], 4, TOP_KEYS + COMP_KEYS)
                 # keep component sections dictionaries
                 files.append(_fix_components(f, rng))
+        if nfiles >= 3 and index % 2 == 0:
+            # a mapping in one file, something that is not a mapping in the next, a mapping again in the one after: the
+            # files are merged strictly in order (merging is not associative: what the middle one wiped out stays gone)
+            files[-3]["nested"] = {"p": 1, "q": {"r": 2}}
+            files[-2]["nested"] = [None, 5, [1], "s"][(index // 2) % 4]
+            files[-1]["nested"] = {"s": 3, "q": {"t": 4}}
         sets = [gen_set(rng, files) for _ in range(rng.choice([0, 0, 1, 1, 2, 3, 4]))]
         if sets and rng.random() < 0.3:
             # the same key path given again later (with other overrides in between), and an override
